@@ -234,7 +234,7 @@ Relation == IF l = r THEN "same_type" ELSE IF IsSub(r, l) THEN "right_is_subclas
 
 K4 == {"C", "S", "O", "D"}
 K5 == {"C", "S", "T", "O", "D"}
-PairsTiny == {<<"S", "S">>, <<"C", "S">>, <<"S", "C">>}
+PairsRefQuick == {<<x, y>> \in {"C", "S", "P", "O"} \X {"C", "S", "P", "O"} : TRUE}
 PairsQuick == {<<x, y>> \in K4 \X K4 : ~(x = "O" /\ y = "O")}
 PairsDeep  == {<<x, y>> \in K5 \X K5 : ~(x = "O" /\ y = "O")}
 PairsFull  == {<<x, y>> \in Kinds \X Kinds : ~(x = "O" /\ y = "O")}
